@@ -23,18 +23,19 @@ import (
 const modPath = "github.com/thomasjungblut/go-sstables"
 
 type Prog struct {
-	RepoDir string
-	Fset    *token.FileSet
-	Pkgs    []*packages.Package
-	All     map[string]*packages.Package // by import path, whole import graph
-	SSA     *ssa.Program
-	NumPkgs int
-	cg      *callgraph.Graph
-	chaG    *callgraph.Graph
-	useCHA  bool
-	funcs   map[string]*ssa.Function // by short key (module functions incl. closures)
-	allFns  map[*ssa.Function]bool
-	modFns  []*ssa.Function // every module function with a body, instantiations included
+	RepoDir  string
+	Fset     *token.FileSet
+	Pkgs     []*packages.Package
+	All      map[string]*packages.Package // by import path, whole import graph
+	SSA      *ssa.Program
+	NumPkgs  int
+	cg       *callgraph.Graph
+	chaG     *callgraph.Graph
+	useCHA   bool
+	funcs    map[string]*ssa.Function // by short key (module functions incl. closures)
+	allFns   map[*ssa.Function]bool
+	modFns   []*ssa.Function // every module function with a body, instantiations included
+	sentFlow *sentinelFlow
 }
 
 // Load type-checks /repo from source (no tests), builds SSA with generics instantiated.
